@@ -1150,6 +1150,11 @@ class RevisionStep(MigrationStep):
         else:
             from_revisions = list(self.from_revisions)
 
+        # only revisions that are actually present as heads can be
+        # deleted or updated; a down revision that is also an ancestor
+        # of another down revision / dependency is implied, not present
+        from_revisions = [rev for rev in from_revisions if rev in heads]
+
         return (
             # delete revs, update from rev, update to rev
             list(from_revisions[0:-1]),
